@@ -8,6 +8,7 @@ spec = {
   "attrs": {"<i>": {name: value}},              # optional extra attributes
   "extra": [[k, i], ...],                       # edge k additionally lists vertex i (not one of its ends)
   "edges_gone": [[cls, i, j, "l"|"v"|"s", pos]], # former links (i != j), created at creation position pos, removed again
+  "link_unis": [[k, "aux"|"own"], ...],          # edge k was filed under another universe / the graph's own one
   "half": [[k, 0|1], ...],                      # edge k lost that end (Vertex.remove_from_link): 1-entry end list
   "laws": {rule: bool} | None,                  # non-default (or no) laws on the universe
   "uni_gone": [[i, "u"|"v"], ...],              # non-members that were members once and left (universe / vertex side)
@@ -109,6 +110,11 @@ def build(spec) -> Built:
         # a two-ended link that also lists a further vertex (Link.add_vertex): its ends stay v1 / v2
         if k < len(g.edges):
             g.edges[k].add_vertex(g.verts[i])
+    if spec.get("link_unis"):
+        # links are BaseObjects too: they can be filed under universes (Link.add_to_universe only annotates the
+        # link).  Which universes a link appears in says nothing about which vertices it joins.
+        g.aux_uni = zoo.Universe()
+        g.link_unis = list(spec["link_unis"])
     for k, which in spec.get("half") or []:
         # an edge that LOST one end through the public API (the vertex let go of it): its end list has one entry
         if k < len(g.edges) and len(g.edges[k].vertices) == 2 and g.edges[k].vertices[0] is not g.edges[k].vertices[1]:
@@ -130,6 +136,11 @@ def build(spec) -> Built:
                 g.verts[i].remove_from_universe(g.uni)
             else:
                 g.uni.remove_vertex(g.verts[i])
+    for k, which in getattr(g, "link_unis", []):
+        if k < len(g.edges):
+            target = g.uni if (which == "own" and g.uni is not None) else g.aux_uni
+            if not any(u is target for u in g.edges[k].universes):
+                g.edges[k].add_to_universe(target)
     return g
 
 
@@ -140,7 +151,7 @@ ECLS_ALL = ECLS_DU + ["OtherLink", "OtherLink2", "TwoEndedLink"]
 # + a two-ended link built directly on Link, and a second unknown class that is also called OtherLink
 ECLS_X = ECLS_ALL + ["DuckLink", "OtherLink~"]
 # + classes sharing their __name__ with another class, and a class with callable instances
-VCLS_X = VCLS_MIX + ["Vertex~", "VSub~"]
+VCLS_X = VCLS_MIX + ["Vertex~", "VSub~", "VDirLess", "VRecord"]
 
 
 def features(spec) -> set:
@@ -176,6 +187,8 @@ def features(spec) -> set:
             f.add("former_members")
     if spec.get("edges_gone"):
         f.add("former_links")
+    if spec.get("link_unis"):
+        f.add("links_filed_under_universes")
     if spec.get("uni") is not None and "laws" in spec:
         f.add("non_default_laws")
     return f
@@ -212,6 +225,8 @@ def rand_spec(rng: random.Random, nmax=6, mmax=12, vcls=VCLS_MIX, ecls=ECLS_ALL,
         spec["uni_cls"] = "FalsyUniverse"
     if uni is not None and rng.random() < 0.3:
         spec["laws"] = None if rng.random() < 0.15 else {k: rng.random() < 0.5 for k in ("mixed_links", "cycles", "multipath", "multiverse")}
+    if edges and rng.random() < 0.15:
+        spec["link_unis"] = [[rng.randrange(len(edges)), rng.choice(["aux", "aux", "own"])] for _ in range(rng.randint(1, 3))]
     if uni is not None and len(set(uni)) < n and rng.random() < 0.4:
         spec["uni_gone"] = [[i, rng.choice("uv")] for i in range(n) if i not in uni and rng.random() < 0.7]
     if rng.random() < 0.25:
